@@ -162,6 +162,9 @@ class Model:
 def linearizable(history, pre, final_key, pre16=False, lenient_add=False):
     """history: list of dict(actor, idx, start, end, call, result).  Memoised DFS."""
     n_act = max(h["actor"] for h in history) + 1 if history else 0
+    for h in history:
+        # the liberty of the second pass applies only to an add whose provider is deregistered by a call overlapping it in time
+        h["dereg_overlaps"] = h["call"][0] == "add" and any(o["call"] == ("dereg_p", h["call"][1]) and o["start"] < h["end"] and h["start"] < o["end"] for o in history)
     per = [[h for h in history if h["actor"] == a] for a in range(n_act)]
     seen = set()
 
@@ -182,7 +185,7 @@ def linearizable(history, pre, final_key, pre16=False, lenient_add=False):
             if h["start"] > min_end:
                 continue
             m2 = model.copy()
-            res = m2.apply(h["call"], h["result"])
+            res = m2.apply(h["call"], h["result"] if h.get("dereg_overlaps") else None)
             if h["call"][0] in ("gc", "attend") or res == h["result"]:
                 np = tuple(p + 1 if i == a else p for i, p in enumerate(pos))
                 if dfs(np, m2):
